@@ -194,6 +194,32 @@ def print_assumptions(prop_module, theorems):
     return res
 
 
+def run_coqchk(prop_module):
+    """thorough tier: re-check the compiled property file and everything it depends on with Coq's independent checker
+    and compare the axioms it reports (for ALL loaded libraries) with the allow-list"""
+    rc, out = sh(["coqchk", "-silent", "-o", "-Q", "Gen", "Gen", "-Q", "Model", "Model", "-Q", "Proofs", "Proofs", "-Q", "Props", "Props",
+                  "Props." + prop_module], cwd=COQ, timeout=1700)
+    if rc != 0:
+        raise Broken("coqchk rejects the compiled development of Props/%s" % prop_module, out[-2000:])
+    axioms, on = [], False
+    for line in out.splitlines():
+        if line.startswith("* Axioms:"):
+            on = True
+            rest = line[len("* Axioms:"):].strip()
+            if rest and rest != "<none>":
+                axioms.append(rest)
+            continue
+        if on:
+            if line.startswith("* ") or not line.strip():
+                on = False if line.startswith("* ") else on
+                continue
+            axioms.append(line.strip())
+    bad = [a for a in axioms if not any(a.endswith(ok) for ok in ALLOWED_AXIOMS)]
+    if bad:
+        raise Broken("coqchk reports axioms outside the allow-list", "\n".join(bad))
+    return axioms
+
+
 def build_driver():
     os.makedirs(EXTRACTED, exist_ok=True)
     srcs = sorted(glob.glob(os.path.join(COQ, "Model", "*.v"))) + [os.path.join(COQ, "Gen", "Tables.v"),
